@@ -127,6 +127,13 @@ PROPS = {
         unit("c11-sched", "cert", ["cert/c11_test.go"], "^TestVerifC11Sched", engines=SCHED + ["vhook"], race=True, sched_env={"GOMAXPROCS": "1"}, shards={"quick": 1, "thorough": 16},
              rewrite=[{"files": ["cert/store.go"], "opts": ["-imports", "-stmt", "-only", "SetCertificates,certstore,getCertificate"]}, {"files": ["cert/source.go"], "opts": ["-imports", "-go", "-chan", "-only", "TLSConfig"]}]),
     ], layers={"quick": ["c11-select", "c11-watch", "c11-sched"], "thorough": ["c11-select", "c11-watch", "c11-sched"]}),
+    "C19": dict(level="exploration", engine="benum",
+        technique="bounded-exhaustive configuration product through transport.SetConfig and main.newHTTPProxy, plus a causal timeout scenario matrix",
+        level_text="All 3^5 combinations of the five proxy transport options are pushed through the real transport.SetConfig and the three ways fabio builds transports (default, skip-verify, per-route host override) and read back field by field; the response-header timeout is additionally exercised end to end through ServeHTTP against an upstream that holds its headers until the harness releases it.",
+        level_note="Dial timeout and keep-alive live inside a bound method value, so transport/transport.go is rewritten to build a recording vhook.Dialer (same fields, delegates to net.Dialer). The behavioural part uses causal barriers with a 20 s guard; it never asserts a short wall-clock bound.",
+        units=[
+        unit("c19", ".", MAIN_COMMON + ["main/c19_test.go"], "^TestVerifC19", engines=["vhook"], rewrite=[{"files": ["transport/transport.go"], "opts": ["-sel", "net.Dialer=vhook.Dialer"]}]),
+    ], layers={"quick": ["c19-config", "c19-behaviour"], "thorough": ["c19-config", "c19-behaviour"]}),
 }
 
 def layer_unit(pid, layer):
